@@ -220,6 +220,11 @@ def generate(contract, cfgname, registry, repo, D=None):
     if D is not None: st.assume += list(contract.concrete_instances(c0, D))
     st.pre = pre; st.names = names; st.ex = ex
     ret = ex.block(fn.body)
+    # statement coverage of this configuration: statements of the function that the symbolic execution never reached are not covered by
+    # any obligation (a branch the executor decides away is dead code to the proof) -- aggregated over the configurations in lib/deductive
+    st.cov_visited = sorted(x for x in getattr(ex, 'visited', ()) if x)
+    st.cov_stmts = [(n_.lineno, ast.unparse(n_).split('\n')[0][:110]) for n_ in ast.walk(fn) if isinstance(n_, ast.stmt) and n_ is not fn
+                    and not isinstance(n_, (ast.Raise, ast.Pass, ast.Import, ast.ImportFrom, ast.FunctionDef, ast.Assert)) and not (isinstance(n_, ast.Expr) and isinstance(n_.value, ast.Constant))]
     retval = ret[1] if ret is not None else None
     # lemmas about the spec functions (proved in their own small context)
     for (nm, hyps, goal, axs) in contract.spec_lemmas(mk()):
@@ -493,6 +498,7 @@ def verify_cfg(contract, cfgname, registry, repo, D=None, timeout_ms=None):
         res.obligations.append({'name': ob.name, 'kind': ob.kind, 'verdict': v, 'seconds': round(dt, 3), 'why': why, 'backend': 'z3'})
     res.wall = time.time() - t0
     res.state = st
+    res.cov = (getattr(st, 'cov_visited', None), getattr(st, 'cov_stmts', None))
     return res
 
 
